@@ -485,3 +485,60 @@ pub fn c09_seq_families(tier: &str) -> Vec<SeqSpec> {
 pub fn is_c09_clause(c: &str) -> bool {
     c.starts_with("C09.") || c.starts_with("crash.")
 }
+
+// ------------------------------------------------------------------------------------------------
+// combined checks (sequence part + schedule part)
+// ------------------------------------------------------------------------------------------------
+
+pub fn c03(tier: &str) -> ! {
+    use crate::props_sched::*;
+    let mut rep = Report::new("C03", tier, "model_checking");
+    let t = thorough(tier);
+    let own = |c: &str| c.starts_with("C03.") || c.starts_with("C05.") || c.starts_with("C11.live") || c == "iter.err";
+    let b = budget(tier);
+    run_families(&mut rep, c03_seq_families(tier), b.mul_f32(0.7), own);
+    if t {
+        run_sched(&mut rep, "reader-vs-compaction/p2d4", &c03_programs(), (2, 4), 16, false, 2, Duration::from_secs(1500), own);
+    } else {
+        run_sched(&mut rep, "reader-vs-compaction/p1d3", &c03_programs(), (1, 3), 4, false, 1, Duration::from_secs(15), own);
+    }
+    finish_common(&mut rep);
+    sched_assumptions(&mut rep);
+    rep.cov("oracle", json!("sequence part: after every operation, for every live snapshot get(k, snap) and forward+backward scans at the snapshot equal the model frozen at its creation, and a held iterator re-scanned yields its frozen model; schedule part: snapshot reads / iterator scans concurrent with overwrite, delete, flush, compaction and obsolete-file deletion are linearizable at their creation point and never fail (strict unlink)"));
+    rep.finish()
+}
+
+pub fn c09(tier: &str) -> ! {
+    use crate::props_sched::*;
+    let mut rep = Report::new("C09", tier, "model_checking");
+    let t = thorough(tier);
+    let b = budget(tier);
+    run_families(&mut rep, c09_seq_families(tier), b.mul_f32(0.7), is_c09_clause);
+    if t {
+        run_sched(&mut rep, "liveness/p2d4", &c09_programs(), (2, 4), 16, false, 2, Duration::from_secs(1500), is_c09_clause);
+    } else {
+        run_sched(&mut rep, "liveness/p1d3", &c09_programs(), (1, 3), 4, false, 1, Duration::from_secs(15), is_c09_clause);
+    }
+    finish_common(&mut rep);
+    sched_assumptions(&mut rep);
+    rep.cov("oracle", json!("every explored execution runs to completion: no deadlock (no runnable task while one is unfinished, or a task re-acquiring a mutex it holds), no livelock (step bound 10^6), no panic of a database call or of the background thread, every descriptor returns; the alphabet contains every public call"));
+    rep.finish()
+}
+
+pub fn c11(tier: &str) -> ! {
+    use crate::props_sched::*;
+    let mut rep = Report::new("C11", tier, "model_checking");
+    let t = thorough(tier);
+    let own = |c: &str| c.starts_with("C11.");
+    let b = budget(tier);
+    run_families(&mut rep, c11_seq_families(tier), b.mul_f32(0.6), own);
+    if t {
+        run_sched(&mut rep, "reader-vs-deletion/p2d4", &c03_programs(), (2, 4), 16, false, 2, Duration::from_secs(1500), own);
+    } else {
+        run_sched(&mut rep, "reader-vs-deletion/p1d3", &c03_programs(), (1, 3), 4, false, 1, Duration::from_secs(15), own);
+    }
+    finish_common(&mut rep);
+    sched_assumptions(&mut rep);
+    rep.cov("oracle", json!("sequence part: at every node without live snapshot/iterator, after one reclamation opportunity (flush of the possibly empty memtable, background idle) the three directories hold exactly CURRENT, LOCK, the current manifest, WALs >= the version's WAL number and the tables of the current layout; with a live snapshot/iterator every table of the current layout exists; schedule part: no read of a reader concurrent with compaction + deletion ever touches a removed file (strict unlink)"));
+    rep.finish()
+}
